@@ -1,0 +1,53 @@
+//! Verification hooks: named pause points and an event log.
+//!
+//! Only compiled with the `verif-hooks` feature.  Without an installed handler every
+//! function here is a no-op, so enabling the feature does not change behaviour.
+
+use std::{
+    future::Future,
+    pin::Pin,
+    sync::{Arc, RwLock},
+};
+
+/// Handler for synchronous points and events: `(name, detail)`.
+pub type SyncHandler = Arc<dyn Fn(&str, &str) + Send + Sync>;
+/// Future returned by an async handler.
+pub type PointFuture = Pin<Box<dyn Future<Output = ()> + Send>>;
+/// Handler for asynchronous points: returns a future to await at the point, if any.
+pub type AsyncHandler = Arc<dyn Fn(&str, &str) -> Option<PointFuture> + Send + Sync>;
+
+static SYNC: RwLock<Option<SyncHandler>> = RwLock::new(None);
+static ASYNC: RwLock<Option<AsyncHandler>> = RwLock::new(None);
+
+/// Installs (or removes) the handler called by [`point`] and [`event`].
+pub fn set_sync_handler(h: Option<SyncHandler>) {
+    *SYNC.write().unwrap_or_else(|e| e.into_inner()) = h;
+}
+
+/// Installs (or removes) the handler called by [`point_async`].
+pub fn set_async_handler(h: Option<AsyncHandler>) {
+    *ASYNC.write().unwrap_or_else(|e| e.into_inner()) = h;
+}
+
+/// A named synchronous pause point. The handler may block the calling thread.
+pub fn point(name: &str) {
+    event(name, "");
+}
+
+/// Reports an event with a free-form detail string to the sync handler.
+pub fn event(name: &str, detail: &str) {
+    let h = SYNC.read().unwrap_or_else(|e| e.into_inner()).clone();
+    if let Some(h) = h {
+        h(name, detail);
+    }
+}
+
+/// A named asynchronous pause point. The handler may return a future that is awaited here.
+pub async fn point_async(name: &str, detail: &str) {
+    let h = ASYNC.read().unwrap_or_else(|e| e.into_inner()).clone();
+    if let Some(h) = h {
+        if let Some(fut) = h(name, detail) {
+            fut.await;
+        }
+    }
+}
